@@ -76,7 +76,7 @@ EXPLANATION = (
     'stream partmeshb_chunk runs under C06.  '
     'TEXT FORMATS (work package formats; Refine/Model/Formats.lean, Props/C08Formats.lean): ref_export_ugrid / _tri / _fgrid / '
     '_su2 / _msh and ref_import_ugrid / _tri / _surf / _fgrid / _su2 / _msh / _i_like_cfd_grid / _r8_ugrid at token level '
-    '(numbers as the bit pattern strtod returns for the %.16e text).  FORMATS_THEOREMS.  Tie: formats_write — the tokens of the file ref_export_by_extension writes == encodeX m '
+    '(numbers as the bit pattern strtod returns for the %.16e text).  Proved for EVERY mesh the format holds (UgridOk / TriOk / FgridOk: cells = their vertices [+ id], vertices exist, ids and counts fit an int, at most 2^28-200 vertices): roundtrip_ugrid_txt: decodeUgridTxt (encodeUgridTxt m) = ok (normalizeUgrid m) with normalizeUgrid the stable id order of the faceid sweep of the writer (normalizeUgrid_perm: a permutation of the boundary faces, volume cells and vertices untouched), roundtrip_tri, roundtrip_fgrid (reader as in /repo and with the proposed repairs alike); su2_pyramid_order_inverse, su2_prism_order_inverse, msh_pyramid_order_involution (VTK / Gmsh node orders of writer and reader are mutually inverse). .su2 and .msh: NOT proved in general: sample_roundtrips (decide, one mesh with boundary faces and a tet) and the tie only.  Tie: formats_write — the tokens of the file ref_export_by_extension writes == encodeX m '
     '(meshes with all kinds, removed vertex slots, 2-D SU2 with edge markers) and export + import == decodeX (encodeX m); '
     'oracle: the independent parsers of checks/streams_formats.py (written from the AFLR3, FAST, SU2, Gmsh 4.1 format '
     'descriptions) read what refine wrote: vertices bitwise, cells with orientation and ids in the documented order (boundary '
